@@ -154,6 +154,16 @@ def get_introspectable(obj, forged=True, af_hint=True, partial=True):
                 return obj
     return obj
 
+def answers_every_name(obj):
+    """Does ``obj`` make up attributes (``__getattr__``) for any name?"""
+    try:
+        obj._sigtools__no_object_has_this_attribute
+    except AttributeError:
+        return False
+    except Exception:
+        pass
+    return True
+
 def get_ast(func):
     try:
         code = func.__code__
